@@ -40,7 +40,7 @@ RULE = (
     "order, classes, empty flags, rules, check names/classes/rules and data format attributes. Part 'rewrites': 1..5 "
     "meaning-preserving rewrites composed at random (comment rows with empty first cell, empty rows, trailing cells "
     "beyond column 3/7/4, dropped trailing empty cells of field rows, row markers in either case with blanks, "
-    "property/format names and symbolic values in any case, blanks around field name/mark/type/rule, x/X, permuted "
+    "property/format names and symbolic values in any case, blanks around field name/mark/type/rule, x/X, property rows moved behind fields or checks (only properties no field consults while being declared), permuted "
     "property rows): must stay accepted with identical field_names, (class, empty flag, str(length), rule) per "
     "field, check_names with (class, rule) and data format attributes. Part 'defects': every entry of a catalogue of "
     "56 structural defects applied alone at every applicable row of a valid CID decorated with 0..4 such rewrites: "
@@ -226,7 +226,8 @@ def _field_names():
 
 @st.composite
 def _rewrite_ops(draw, counts):
-    kinds = ["comment", "empty-row", "trailing", "trim", "marker", "names-case", "blanks", "xcase", "permute"]
+    kinds = ["comment", "empty-row", "trailing", "trim", "marker", "names-case", "blanks", "xcase", "permute",
+             "props-late"]
     count = draw(st.sampled_from(counts))
     ops = []
     for _ in range(count):
@@ -495,6 +496,17 @@ def apply_rewrite(tagged, op):
             order.append(props.pop(tape.next(len(props))))
         for slot, row in zip(slots, order):
             tagged[slot] = row
+    elif kind == "props-late":
+        # a property no field consults while it is declared may just as well be set after the fields or the checks
+        late = ("header", "encoding", "sheet", "line delimiter", "quote character", "item delimiter",
+                "escape character", "quoting")
+        movable = [i for i, row in enumerate(tagged) if row[0] == "prop" and len(row[1]) > 1
+                   and row[1][1].strip().lower().replace("_", " ") in late]
+        if movable:
+            source = movable[tape.next(len(movable))]
+            row = tagged.pop(source)
+            target = source + 1 + tape.next(len(tagged) - source) if len(tagged) > source else len(tagged)
+            tagged.insert(min(target, len(tagged)), row)
     else:
         raise ValueError("unknown rewrite %r" % kind)
     return tagged
